@@ -580,12 +580,23 @@ func (s *Server) GetResolved(docURI protocol.DocumentURI) *include.ResolvedJourn
 }
 
 func (s *Server) getWorkspaceResolved(docURI protocol.DocumentURI) *include.ResolvedJournal {
-	if s.workspace != nil {
+	if s.inWorkspaceTree(docURI) {
 		if resolved := s.workspace.GetResolved(); resolved != nil {
 			return resolved
 		}
 	}
 	return s.GetResolved(docURI)
+}
+
+// inWorkspaceTree reports whether the document is the workspace's root journal or one
+// of the files it includes. Any other document is answered from its own include tree:
+// the workspace tree does not contain it.
+func (s *Server) inWorkspaceTree(docURI protocol.DocumentURI) bool {
+	if s.workspace == nil || s.workspace.GetResolved() == nil {
+		return false
+	}
+	path := uriToPath(docURI)
+	return path != "" && s.workspace.Contains(path)
 }
 
 // withOpenDocuments returns resolved with every included file that is open in the
@@ -622,7 +633,7 @@ func (s *Server) withOpenDocuments(resolved *include.ResolvedJournal) *include.R
 // was read from: the workspace's root journal when the workspace tree is in use,
 // the document itself otherwise.
 func (s *Server) resolvedPrimaryPath(docURI protocol.DocumentURI) string {
-	if s.workspace != nil && s.workspace.GetResolved() != nil {
+	if s.inWorkspaceTree(docURI) {
 		if root := s.workspace.RootJournalPath(); root != "" {
 			return root
 		}
